@@ -97,10 +97,18 @@ def generate(rs: int, tier: str, index: int) -> dict:
         cp = ch.sub("plainkw")
         step["comment_lines"] = cp.choice([0, 0, 1, 2])
         step["skiprows"] = cp.choice([0, 0, 1, 2])
-    return {"property": ID, "run_seed": rs, "tier": tier, "prelude": prelude.gen_prelude(core.Chooser(rs, "prelude")), "steps": [step]}
+    plan = {"property": ID, "run_seed": rs, "tier": tier, "prelude": prelude.gen_prelude(core.Chooser(rs, "prelude")), "steps": [step]}
+    if ch.sub("interp").chance(0.02):
+        plan["interpreter"] = ["-O"]  # the whole run in `python -O`: assert statements are stripped, __debug__ is False
+    return plan
 
 
 # ---------------------------------------------------------------------------
+
+
+import errno as _errno
+
+WRITE_ERRNOS = [_errno.EIO, _errno.EINTR, _errno.ENOSPC, _errno.EAGAIN, _errno.ESTALE]
 
 
 def _view(p: Any, view: str) -> Any:
@@ -314,7 +322,8 @@ class Runner:
             # ---- write faults: every k, and close
             if step.get("fault") == "write":
                 for k in range(1, nwrites + 1):
-                    f = fileseam.Faults(write_fail_at=k)
+                    # which error: hard ones and the "try again" family (EINTR, EAGAIN, ESTALE) alike
+                    f = fileseam.Faults(write_fail_at=k, err=WRITE_ERRNOS[(k + core.H(self.rs, "errno")) % len(WRITE_ERRNOS)])
                     t2 = self._target(env, kind, f, name=f"w{k}.txt")
                     self.bump("fault:write_error.configured")
                     try:
@@ -499,6 +508,8 @@ def execute(plan: dict) -> dict:
 
 
 def simplify(plan: dict):
+    if plan.get("interpreter"):
+        yield {k: v for k, v in plan.items() if k != "interpreter"}
     if plan.get("prelude"):
         yield dict(plan, prelude=None)
         for i in range(len(plan["prelude"])):
